@@ -562,7 +562,8 @@ class PopulationBalanceModel:
         dXdt = (self._netFlux[:-1] - self._netFlux[1:])
 
         #Find size class for nucleated particles
-        nRad = np.argmax(self.PSDbounds > nucRadius) - 1
+        #Radii outside the grid go to the nearest (first or last) size class
+        nRad = np.clip(np.searchsorted(self.PSDbounds, nucRadius, side='right') - 1, 0, len(dXdt) - 1)
         dXdt[nRad] += nucRate
 
         return dXdt
@@ -614,7 +615,8 @@ class PopulationBalanceModel:
         dXdt = (self._netFlux[:-1] - self._netFlux[1:])
 
         #Find size class for nucleated particles
-        nRad = np.argmax(self.PSDbounds > nucRadius) - 1
+        #Radii outside the grid go to the nearest (first or last) size class
+        nRad = np.clip(np.searchsorted(self.PSDbounds, nucRadius, side='right') - 1, 0, len(dXdt) - 1)
         dXdt[nRad] += nucRate
 
         return dXdt
